@@ -111,6 +111,36 @@ def gltf_unbacked_bytes(files, main):
         return 0
 
 
+# the CPU-time experiment, as run in a child interpreter: argv = family, n
+_CPU_CHILD = r"""
+import gc, io, json, os, sys, time
+sys.stdout = open(os.devnull, "w")
+import trimesh
+from sim.worlds import amplifiers
+fam, n = sys.argv[1], int(sys.argv[2])
+ft, build = amplifiers.LINEAR[fam]
+load = trimesh.load_path if ft in ("dxf", "svg") else trimesh.load
+def cost(k, repeat):
+    doc = build(k)
+    best = None
+    for _ in range(repeat):
+        gc.collect(); gc.disable()
+        try:
+            t = time.process_time()
+            try:
+                load(io.BytesIO(doc), file_type=ft)
+            except Exception:
+                pass
+            dt = time.process_time() - t
+        finally:
+            gc.enable()
+        best = dt if best is None else min(best, dt)
+    return best
+cost(8, 1)
+out = {"t1": cost(n, 3), "t16": cost(16 * n, 1)}
+sys.__stdout__.write("TIMES " + json.dumps(out) + "\n")
+"""
+
 # payload format -> the file type its documents are loaded as
 FT_OF = {"stl_ascii": "stl", "ply_ascii": "ply", "obj_mtl": "obj", "glb": "gltf"}
 # doubling experiments that reproduce a recorded finding (none so far)
@@ -688,6 +718,8 @@ class C20(World):
                             self._attempt(op, cfg, st, scratch, mon, ctx)
                     elif op["op"] == "scaling":
                         self._scaling(op, cfg, scratch, mon, ctx)
+                    elif op["op"] == "scaling_cpu":
+                        self._scaling_cpu(op, cfg, scratch, ctx)
                     elif op["op"] == "valid_after":
                         self._valid_after(cfg, st, scratch, mon, ctx)
                 except Inapplicable:
@@ -921,6 +953,51 @@ class C20(World):
                 ctx.finding(fid, f"{op['family']} n={n}: {steps}")
                 return
             ctx.fail("time", f"{ft}-scaling", f"{op['family']} via {op['route']}: {n}, {2 * n}, {4 * n} items cost {steps} steps: the second increment is {d2 / max(d1, 1):.2f} times the first (proportional cost gives 2.00)")
+
+    # families and base sizes of the CPU-time experiment (n and 16 n items; measured on the unchanged tree: ratio / 16 between 1.0 and 1.5)
+    CPU_FAMILIES = [("obj_alternating_materials", 6000), ("3mf_objects", 4000), ("obj_same_names", 4000), ("obj_material_groups", 600), ("stl_same_names", 1500),
+                    ("gltf_unnamed_meshes", 1500), ("dxf_lines", 3000), ("svg_paths", 1500)]
+
+    def fixed_programs(self, tier):
+        cfg = {"kind": "mesh", "fmt": "obj", "n_attempts": 0, "routes": ["load"], "weights": {}, "stack": False, "enumerate_truncation": False}
+        return [("cpu-scaling-" + fam, {"config": cfg, "seed": 1, "ops": [{"op": "scaling_cpu", "family": fam, "n": n, "rs": 1}]}) for fam, n in self.CPU_FAMILIES]
+
+    def _scaling_cpu(self, op, cfg, scratch, ctx):
+        """The part of 'a bound proportional to the input size' that a count of executed lines cannot see: work done inside one
+        line (a string grown by concatenation, a list searched again and again). The process's own CPU time for n and for 16 n
+        independent trivial items, loader unmonitored, collector off: proportional cost gives a ratio of 16 (1.0 - 1.5 times that on
+        the unchanged tree); more than 2.5 times that AND more than 3 CPU-seconds beyond it fails. Times never enter the event log."""
+        import json as _json
+        import subprocess
+
+        ft, _build = amplifiers.LINEAR[op["family"]]
+        n = int(op["n"])
+
+        def measure():
+            # in an interpreter of its own: no line monitor, no tracemalloc, nothing warmed up or left over by earlier runs
+            env = dict(os.environ, PYTHONPATH=os.pathsep.join(p_ for p_ in sys.path if p_), PYTHONDONTWRITEBYTECODE="1")
+            r = subprocess.run([sys.executable, "-c", _CPU_CHILD, op["family"], str(n)], env=env, capture_output=True, text=True, timeout=3600)
+            line = [ln for ln in r.stdout.splitlines() if ln.startswith("TIMES ")]
+            if not line:
+                from ..core.engine import HarnessError
+
+                raise HarnessError("cpu-scaling child gave no result: " + r.stderr[-800:])
+            d = _json.loads(line[-1][6:])
+            return max(float(d["t1"]), 1e-4), float(d["t16"])
+
+        t1, t16 = measure()
+        ctx.count("op:scaling-cpu")
+        ctx.count("check:scaling-cpu")
+        bad = t16 > 2.5 * 16 * t1 and t16 - 16 * t1 > 3.0
+        if bad:
+            # once more, to keep a hiccup of the machine out of the verdict
+            t1b, t16b = measure()
+            bad = t16b > 2.5 * 16 * t1b and t16b - 16 * t1b > 3.0
+            t1, t16 = t1b, t16b
+        ctx.reach(ft, "scaling-cpu", op["family"], "superlinear" if bad else "proportional")
+        ctx.event("scaling_cpu", op["family"], n, bad)
+        if bad:
+            ctx.fail("time", f"{ft}-scaling-cpu", f"{op['family']}: {n} items take {t1:.3f} CPU-seconds, {16 * n} items {t16:.2f}: {t16 / t1 / 16:.1f} times the proportional cost")
 
     @staticmethod
     def _quiet(fn):
